@@ -246,6 +246,7 @@ struct World {
     effect_vals: RefCell<Vec<Option<i64>>>,
     trace: RefCell<Vec<String>>,
     next_tag: Cell<usize>,
+    api_counter: Cell<usize>,
     sh: RefCell<Shadow>,
 }
 
@@ -257,6 +258,7 @@ impl World {
             effect_vals: RefCell::new(vec![None]),
             trace: RefCell::new(vec![]),
             next_tag: Cell::new(0),
+            api_counter: Cell::new(0),
             sh: RefCell::new(Shadow::default()),
         };
         {
@@ -461,19 +463,28 @@ fn node_handle(w: &World, env: &[H], h: usize) -> (NodeHandle, usize) {
     (w.handles.borrow()[seq].expect("harness: handle without NodeHandle"), seq)
 }
 
+/// a counter that advances with every read/write statement executed in the case: selects which of the
+/// equivalent API forms is used (deterministic per case)
+fn api_form(w: &Rc<World>) -> usize {
+    let n = w.api_counter.get();
+    w.api_counter.set(n + 1);
+    n
+}
+
 fn exec_stmt(w: &Rc<World>, env: &mut Vec<H>, run: &mut Run, s: &Stmt) {
     match s {
         Stmt::Read(h) => {
             let (sig, id) = value_handle(env, *h);
             expect_dead_handle(w, id);
-            let v = sig.get();
+            // every tracked read form of the API, chosen by the position in the program
+            let v = match api_form(w) % 3 { 0 => sig.get(), 1 => sig.get_clone(), _ => sig.with(|v| *v) };
             track_shadow(w, id);
             note_read(w, run, id, v);
         }
         Stmt::ReadU(h) => {
             let (sig, id) = value_handle(env, *h);
             expect_dead_handle(w, id);
-            let v = sig.get_untracked();
+            let v = match api_form(w) % 3 { 0 => sig.get_untracked(), 1 => sig.get_clone_untracked(), _ => sig.with_untracked(|v| *v) };
             let t = w.sh.borrow_mut().frames.last_mut().unwrap().tracker.take();
             note_read(w, run, id, v);
             w.sh.borrow_mut().frames.last_mut().unwrap().tracker = t;
@@ -567,10 +578,22 @@ fn exec_stmt(w: &Rc<World>, env: &mut Vec<H>, run: &mut Run, s: &Stmt) {
                         sh.effect_wrote = true;
                     }
                 }
-                sg.set(v);
+                // every write form of the API (none of them reads with tracking)
+                match api_form(w) % 5 {
+                    0 => sg.set(v),
+                    1 => sg.set_fn(|_| v),
+                    2 => sg.update(|x| *x = v),
+                    3 => { let _ = sg.replace(v); }
+                    _ => { let (_, set) = sg.split(); let _ = set(v); }
+                }
             } else {
                 w.sh.borrow_mut().tainted.insert(id);
-                sg.set_silent(v);
+                match api_form(w) % 4 {
+                    0 => sg.set_silent(v),
+                    1 => sg.set_fn_silent(|_| v),
+                    2 => sg.update_silent(|x| *x = v),
+                    _ => { let _ = sg.replace_silent(v); }
+                }
             }
         }
         Stmt::Cleanup(b) => {
@@ -589,6 +612,11 @@ fn exec_stmt(w: &Rc<World>, env: &mut Vec<H>, run: &mut Run, s: &Stmt) {
                     sh.cleanups[tag].1 += 1;
                     let cur = sh.cur();
                     sh.frames.push(Frame { current: cur, tracker: None });
+                }
+                // a write made by a cleanup happens inside the re-run / disposal that triggered it: like an
+                // effect write, it may legitimately re-run computations more than once in the operation
+                if body.iter().any(|s| matches!(s, Stmt::Set(..))) {
+                    w.sh.borrow_mut().effect_wrote = true;
                 }
                 let mut env = captured.clone();
                 let mut run = Run { acc: 0, obs: vec![], reads: vec![] };
@@ -1264,10 +1292,18 @@ impl<'a> Gen<'a> {
                     Some(Stmt::Scope(inner))
                 }
                 12 => {
+                    // a cleanup runs when its owner re-runs or is disposed: it counts for the enclosing
+                    // computation; besides reads it may WRITE signals (under the level rule)
                     let mut e1 = env.clone();
-                    let mut rwc = RW::new();
-                    let inner = self.body(&mut e1, 0, false, &mut rwc, false);
-                    Some(Stmt::Cleanup(inner.into_iter().filter(|s| matches!(s, Stmt::Read(_) | Stmt::ReadU(_) | Stmt::Track(_))).collect()))
+                    let mut inner = self.body(&mut e1, 0, false, rw, false);
+                    if self.rng.chance(1, 2) {
+                        if let Some(h) = self.pick_write(env, rw) {
+                            let at = self.rng.below(inner.len() + 1);
+                            let e = self.ex();
+                            inner.insert(at, Stmt::Set(h, e));
+                        }
+                    }
+                    Some(Stmt::Cleanup(inner.into_iter().filter(|s| matches!(s, Stmt::Read(_) | Stmt::ReadU(_) | Stmt::Track(_) | Stmt::Set(..))).collect()))
                 }
                 13 => Some(Stmt::Provide(self.rng.below(3) as u8, self.ex())),
                 14 | 15 => Some(Stmt::Use(self.rng.below(3) as u8)),
@@ -1507,6 +1543,27 @@ fn templates() -> Vec<Vec<Stmt>> {
         p.push(Memo(vec![Read(0), Read(1), Read(2)]));
         p.push(Effect(vec![Read(5)]));
         p.extend([s_set(0, 1), ReadU(5), s_set(0, 2), ReadU(5), s_set(1, 0), ReadU(5)]);
+        t.push(p);
+    }
+    // a cleanup that WRITES a signal: a surviving effect re-runs in the middle of the disposal and subscribes to
+    // the node that is being disposed; afterwards it must not keep a dangling dependency
+    for memo in [true, false] {
+        for extra in [false, true] {
+            let m_body = vec![Read(0), Cleanup(vec![Set(1, Ex::C(1))])];
+            let mut p = vec![Signal(0), Signal(0), if memo { Memo(m_body) } else { Effect(m_body) }];
+            // E reads M only while t > 0 (it is alive then)
+            p.push(Effect(if memo { vec![IfPos(1, vec![Read(2)], vec![])] } else { vec![IfPos(1, vec![Track(0)], vec![]), Read(1)] }));
+            if extra { p.push(Effect(vec![Read(1), Read(0)])); }
+            p.extend([Dispose(2), s_set(1, 0), s_set(0, 5), s_set(1, 0), s_set(1, -1)]);
+            t.push(p);
+        }
+    }
+    // the same with the node owned by a scope that is disposed
+    {
+        let mut p = vec![Signal(0), Signal(0)];
+        p.push(Scope(vec![Effect(vec![Read(0), Cleanup(vec![Set(1, Ex::AccPlus(1))])]), Cleanup(vec![Set(1, Ex::C(2))])]));
+        p.push(Effect(vec![Read(1), Read(0)]));
+        p.extend([s_set(0, 1), Dispose(2), s_set(1, 0), s_set(0, 2)]);
         t.push(p);
     }
     t
